@@ -373,7 +373,7 @@ func init() {
 			"(prod) products of field-name variants x separators x length values x content-type lines x line ends x blank line x bodies, each followed by a valid message; " +
 			"(line) every string over {a, b, split byte} of <= 10 (quick) / 12 (thorough) bytes x 4 chunkings; " +
 			"(json) every string of <= 5 / 7 tokens over { } [ ] \" a 1 , : space and of <= 4 / 5 value-level tokens x 3 chunkings; " +
-			"(absurd) Content-Length 2^31, 2^40, 2^46, 2^47, 2^62, 2^63-1, 2^63, 10^30, -1, +5, ... with a 3-byte body; " +
+			"(longline) header lines and split records of 4084..4108, 8180..8204, 12276..12300, 20000, 70000 bytes (unknown field with a long value, also ending in text that looks like a Content-Length field); (absurd) Content-Length 2^31, 2^40, 2^46, 2^47, 2^62, 2^63-1, 2^63, 10^30, -1, +5, ... with a 3-byte body; " +
 			"(trunc) every truncation point of 50 valid multi-record streams per framing (sampled points for streams > 600 bytes); (mut) seeded 1-3 byte mutations of valid streams. " +
 			"evaluations = stream decodes. distinct_nontrivial = distinct (framing, stream) on which the reference decoder yields at least one record before the first error, " +
 			"or a final record / payload / JSON value cut off by end of stream (streams whose first line is already garbage are counted only in the counter inputs); " +
@@ -389,7 +389,7 @@ func init() {
 		},
 		Require: map[string]int64{
 			"records_decoded": 100000, "required_errors_seen": 100000, "cut_off_final_records": 10000,
-			"cut_off_payloads": 1000, "content_type_errors_checked": 1000, "inputs_absurd": 30, "inputs_trunc": 5000, "inputs_mut": 5000,
+			"cut_off_payloads": 1000, "content_type_errors_checked": 1000, "inputs_absurd": 30, "inputs_longline": 500, "inputs_trunc": 5000, "inputs_mut": 5000,
 		},
 		Cases: c12cases,
 	})
@@ -405,6 +405,17 @@ func c12cases(e vt.Env, yield func(vt.Case) bool) {
 		}
 		fr := fr
 		if !yield(vt.Case{ID: "absurd/" + fr.name, Run: func(c *vt.Ctx) { c12absurd(c, fr) }}) {
+			return
+		}
+	}
+
+	// (longline) header lines and split records around the 4096-byte reader buffer
+	for _, fr := range frs {
+		if fr.kind == 'j' {
+			continue
+		}
+		fr := fr
+		if !yield(vt.Case{ID: "longline/" + fr.name, Run: func(c *vt.Ctx) { c12longline(c, fr) }}) {
 			return
 		}
 	}
@@ -543,6 +554,62 @@ func c12absurd(c *vt.Ctx, fr c12fr) {
 				// preceded by a good message so that a reused buffer exists
 				for _, pre := range []string{"", ct + "Content-Length: 2\r\n\r\nok"} {
 					if !a.input(append([]byte(pre), stream...), c12modesAll[:2]) {
+						return
+					}
+				}
+			}
+		}
+	}
+}
+
+// c12longline: lines longer than the decoder's internal buffer. For header
+// framings an unknown field with a very long value must simply be ignored (also
+// when its tail looks like a Content-Length field); for split framings long
+// records must come back whole, terminated or not.
+func c12longline(c *vt.Ctx, fr c12fr) {
+	a := newC12acct(c, fr, "longline")
+	defer a.flush()
+	var sizes []int
+	for _, base := range []int{4096, 8192, 12288} {
+		for d := -12; d <= 12; d++ {
+			sizes = append(sizes, base+d)
+		}
+	}
+	sizes = append(sizes, 100, 1000, 5000, 20000, 70000)
+	if fr.kind == 's' {
+		sp := string([]byte{fr.splitByte()})
+		for _, n := range sizes {
+			body := strings.Repeat("r", n)
+			for _, stream := range []string{body + sp + "ab" + sp, "ab" + sp + body + sp + "cd", body, "x" + sp + body} {
+				if !a.input([]byte(stream), c12modesAll) {
+					return
+				}
+			}
+		}
+		return
+	}
+	ct := ""
+	if fr.mime != "" {
+		ct = "Content-Type: " + fr.mime + "\r\n"
+	}
+	for _, n := range sizes {
+		for _, name := range []string{"X-Pad: ", "x:"} {
+			if n <= len(name) {
+				continue
+			}
+			pads := []string{
+				strings.Repeat("p", n-len(name)),
+				strings.Repeat("p", n-len(name)) + "Content-Length: 2",    // a field name right after the buffer boundary
+				strings.Repeat("p", n-len(name)-1) + ":Content-Length: 2", // and a colon just before it
+			}
+			for _, pad := range pads {
+				long := name + pad + "\r\n"
+				for _, stream := range []string{
+					long + ct + "Content-Length: 3\r\n\r\nabc" + ct + "Content-Length: 2\r\n\r\nok",
+					ct + "Content-Length: 3\r\n" + long + "\r\nabc" + ct + "Content-Length: 2\r\n\r\nok",
+					ct + "Content-Length: 3\r\n" + strings.TrimSuffix(long, "\r\n") + "\n\r\nabc",
+				} {
+					if !a.input([]byte(stream), c12modesAll[:2]) {
 						return
 					}
 				}
